@@ -81,11 +81,10 @@ class Check:
         counts = {}
         for o in self.obligations:
             counts[o['rule']] = counts.get(o['rule'], 0) + 1
-        for rule, n in self.floors.items():
-            if counts.get(rule, 0) < n:
-                raise astdb.AnalysisBroken(
-                    'rule %s matched %d instances, floor is %d (anchor drifted?)'
-                    % (rule, counts.get(rule, 0), n))
+        # floors guard *passing* verdicts against vacuity; a definite violation is reported even if some other
+        # rule instance went missing (checked below, after the violations are known)
+        floor_errors = ['rule %s matched %d instances, floor is %d (anchor drifted?)' % (rule, counts.get(rule, 0), n)
+                        for rule, n in self.floors.items() if counts.get(rule, 0) < n]
         known = [k for k in load_known() if k.get('property') == self.pid]
         viols = [o for o in self.obligations if not o['ok']]
         unlisted = []
@@ -102,6 +101,8 @@ class Check:
                 listed.append((v, m))
             else:
                 unlisted.append(v)
+        if floor_errors and not unlisted:
+            raise astdb.AnalysisBroken('; '.join(floor_errors))
         os.makedirs(VIOL_DIR, exist_ok=True)
         for f in os.listdir(VIOL_DIR):
             if f.startswith(self.pid + '-'):
